@@ -34,7 +34,7 @@ CHECKS = {
             "quick": {"shards": 1, "timeout": 1200, "shrinktime": 60}, "thorough": {"shards": 16, "timeout": 3600, "shrinktime": 120}},
     "C01": {"pkg": "wire", "run": "^TestC01",
             "quick": {"shards": 1, "timeout": 600}, "thorough": {"shards": 16, "timeout": 2400}},
-    "C02": {"pkg": "wire", "run": "^TestC02",
+    "C02": {"parts": [{"pkg": "wire", "run": "^TestC02"}, {"pkg": "node", "run": "^TestC02"}],
             "quick": {"shards": 1, "timeout": 600}, "thorough": {"shards": 16, "timeout": 2400}},
     "C05": {"pkg": "wire", "run": "^(Test|Fuzz)C05", "fuzz": [{"pkg": "wire", "target": "FuzzC05Reader", "time": "150s"}],
             "quick": {"shards": 1, "timeout": 600}, "thorough": {"shards": 16, "timeout": 2400}},
@@ -42,7 +42,7 @@ CHECKS = {
             "quick": {"shards": 1, "timeout": 600}, "thorough": {"shards": 16, "timeout": 2400}},
     "C07": {"pkg": "wire", "run": "^TestC07",
             "quick": {"shards": 1, "timeout": 600}, "thorough": {"shards": 16, "timeout": 2400}},
-    "C08": {"pkg": "wire", "run": "^TestC08",
+    "C08": {"parts": [{"pkg": "wire", "run": "^TestC08"}, {"pkg": "node", "run": "^TestC08"}],
             "quick": {"shards": 1, "timeout": 600}, "thorough": {"shards": 16, "timeout": 2400}},
     "C09": {"parts": [{"pkg": "wire", "run": "^TestC09"}, {"pkg": "node", "run": "^TestC09"}],
             "quick": {"shards": 1, "timeout": 600}, "thorough": {"shards": 16, "timeout": 2400}},
